@@ -82,6 +82,7 @@ pub const TEMPLATES: &[&str] = &[
     "warn-doc-cross-file",
     "warn-wide-text",
     "warn-twins",
+    "warn-many-files",
     "err-syntax",
     "err-attribute",
     "err-unresolved",
@@ -213,6 +214,17 @@ pub fn instantiate(template: &'static str, rng: &mut Rng) -> Program {
                 1 => vec!["Deprecated", "Deprecated"],
                 _ => vec!["IncorrectDocComment", "IncorrectDocComment"],
             };
+        }
+        "warn-many-files" => {
+            // more than twenty files, each with a warning and a reference to its predecessor: sorting and hashing
+            // code behaves differently beyond small sizes (insertion sort below 21 elements, table growth, ...)
+            let n = 21 + rng.usize_below(12);
+            for i in 0..n {
+                let prev = if i == 0 { String::new() } else { format!("    prev: Many{u}::F{}::S{}?\n", i - 1, i - 1) };
+                p.files.push(f(&format!("m{i:02}.slice"), format!("module Many{u}::F{i}\n\n/// See {{@link Nope{i}}}.\nstruct S{i} {{\n    id: int32\n{prev}}}\n")));
+            }
+            p.class = Class::WarnOnly(n);
+            p.lints = vec!["BrokenDocLink"; n];
         }
         "warn-spread" => {
             // four warnings of the same kind spread over three files: an iteration-order dependence has something
